@@ -1484,7 +1484,10 @@ MANIFEST = {
                   'join_adjacent_string_literals as translated statement by statement from preprocess.c (C11_translated_join, '
                   'C11_strings_join_translated), whose second pass is proved at byte level: array_len = sum(array_len_i - 1) + 1, str = the units of '
                   'all tokens in memory order followed by exactly one zero unit, no memcpy outside the allocation (C11_join_bytes); the prefix '
-                  'table of tokenize() and getStringKind agree (C11_prefix_kinds).  File bytes -> tokenizer text is one translated function '
+                  'table of tokenize() and getStringKind agree (C11_prefix_kinds); from spelling to bytes: for every sequence of literals given by '
+                  'prefix and body (source characters, escapes) with compatible prefixes the translated passes return the array of the C11 code '
+                  'units of every body item at the prefix of the sequence, one terminator (C11_concat_spec); on a whole token list the two passes '
+                  'over all runs return what the run-by-run composition returns (C11_join_tokens).  File bytes -> tokenizer text is one translated function '
                   '(read_file tail, tokenize_file) equal to phase12 (C11_read_file_spec, C11_source_text).  Source '
                   'text: BOM, CR/CRLF/LF lines, splices (logical lines and newline count preserved), universal character names '
                   '(C11_text_bom/_newlines/_splice/_ucn); composition with the tokenizer: the lines tokenize() sees are the logical lines of '
